@@ -10,6 +10,10 @@ int main(int argc, char** argv) {
 #ifdef DRV_HEAP
   if (mode == "heap") return run_heap(std::cin, std::cout, argc - 2, argv + 2);
 #endif
+#ifdef DRV_THREADS
+  if (mode == "threads") return run_threads(std::cin, std::cout, argc - 2, argv + 2);
+  if (mode == "alias") return run_alias(std::cout);
+#endif
 #ifdef DRV_XML
   if (mode == "xml") return run_xml(std::cin, std::cout, argc - 2, argv + 2);
 #endif
